@@ -354,6 +354,16 @@ pub mod arbitrary_precision_option {
     {
         Option::<serde_json::Number>::deserialize(deserializer)?
                                      .map(|num| num.as_str().parse().map_err(serde::de::Error::custom))
+                                     .transpose()?
+                                     .map(|n: BigDecimal| {
+                                         // enforce the same scale limit as `arbitrary_precision`
+                                         if n.scale.checked_abs().map_or(true, |s| s > SERDE_SCALE_LIMIT) && SERDE_SCALE_LIMIT > 0 {
+                                             let msg = format!("Calculated exponent '{}' out of bounds", -(n.scale as i128));
+                                             Err(serde::de::Error::custom(msg))
+                                         } else {
+                                             Ok(n)
+                                         }
+                                     })
                                      .transpose()
     }
 
